@@ -33,7 +33,8 @@ Proof.
   destruct (dispatch_is_init_request exch req).
   - destruct mk as [e|s0]; [rewrite (Hm e eq_refl); reflexivity|].
     match goal with |- context [sa_process C ?x data] => destruct (sa_process C x data) as [s2 r|s2 e] eqn:E end.
-    + unfold finish. destruct (sa_successor C s2); [destruct (dispatch_register_successor _ _)|];
+    + destruct (dispatch_drop_ignored _); [reflexivity|].
+      unfold finish. destruct (sa_successor C s2); [destruct (dispatch_register_successor _ _)|];
         match goal with |- context [if ?c then _ else _] => destruct c end; reflexivity.
     + rewrite (Hp _ _ _ E). reflexivity.
   - destruct (find _ t) as [s|]; [|reflexivity].
